@@ -6,7 +6,7 @@ import (
 	"verif/harness/sim"
 )
 
-var safetyPatterns = []string{"free", "free", "P1", "P1", "P2", "P3", "P4", "P4b", "P5", "P6", "P7", "P8", "P22", "P22", "P11", "P12", "stopstart", "reads", "P33", "P33"}
+var safetyPatterns = []string{"free", "free", "P1", "P1", "P2", "P3", "P4", "P4b", "P5", "P6", "P7", "P8", "P22", "P22", "P11", "P12", "stopstart", "reads", "P33", "P33", "P35"}
 
 func safetyProfile(name string) sim.Profile {
 	return sim.Profile{
